@@ -128,6 +128,8 @@ class _Acc:
         self.digest = 0
         self.samples = []
         self.nondet = []
+        self.sigs = set()
+        self.nunsigned = 0
 
     def add(self, idx, case, res, seed):
         n, outcome, nontriv, viols = res
@@ -141,8 +143,17 @@ class _Acc:
         self.digest = (self.digest + h64((case, outcome, [v["kind"] for v in viols]))) & (2**64 - 1)
         if viols:
             self.nviol += len(viols)
-            if len(self.viols) < MAX_VIOLS_PER_WORKER:
-                for v in viols:
+            for v in viols:
+                if v.get("sig") is not None:
+                    # signed violations (candidates for known findings) are kept once per signature
+                    key = repr(sorted(v["sig"].items()))
+                    if key not in self.sigs:
+                        self.sigs.add(key)
+                        self.viols.append((idx, repr(case), dict(v)))
+                    else:
+                        self.nviol -= 1
+                elif self.nunsigned < MAX_VIOLS_PER_WORKER:
+                    self.nunsigned += 1
                     self.viols.append((idx, repr(case), dict(v)))
         if len(self.samples) < 3 and (idx == 0 or h64((idx, seed)) % 997 == 0):
             self.samples.append((idx, repr(case)[:600], str(outcome)[:200]))
